@@ -1,4 +1,114 @@
-import DDV.Gen.Lemmas.Tree
+/-
+  C12 — Address-collision analysis is sound and complete.
+-/
+import DDV.Gen.AddrSem
+
 namespace DDV.Props.C12
-theorem placeholder : True := trivial
+open DDV.Gen
+set_option linter.unusedVariables false
+set_option linter.unusedSimpArgs false
+
+/-- Two claimed instances collide: same kind, same absolute address, not both allowing overlap. -/
+def Collide (a b : Claimed) : Prop :=
+  a.address = b.address ∧ a.kind = b.kind ∧ ¬ (a.allowOverlap = true ∧ b.allowOverlap = true)
+
+theorem collide_iff_test (c o : Claimed) :
+    (o.address == c.address && o.kind == c.kind && !(c.allowOverlap && o.allowOverlap)) = true ↔ Collide c o := by
+  unfold Collide
+  simp only [Bool.and_eq_true, beq_iff_eq, Bool.not_eq_true', Bool.and_eq_false_iff]
+  constructor
+  · intro ⟨⟨h1, h2⟩, h3⟩
+    refine ⟨h1.symm, h2.symm, ?_⟩
+    intro ⟨h4, h5⟩
+    rcases h3 with h | h
+    · rw [h4] at h; cases h
+    · rw [h5] at h; cases h
+  · intro ⟨h1, h2, h3⟩
+    refine ⟨⟨h1.symm, h2.symm⟩, ?_⟩
+    cases hc : c.allowOverlap
+    · left; rfl
+    · right
+      cases ho : o.allowOverlap
+      · rfl
+      · exact absurd ⟨hc, ho⟩ h3
+
+/-- **Sound and complete on the expanded instance list**: the pairwise scan finds a pair iff some
+    two distinct positions of the list collide. -/
+theorem no_collision_iff (cs : List Claimed) :
+    firstCollision cs = none ↔ cs.Pairwise (fun a b => ¬ Collide a b) := by
+  induction cs with
+  | nil => simp [firstCollision]
+  | cons c rest ih =>
+    unfold firstCollision
+    cases hf : rest.find? (fun o => o.address == c.address && o.kind == c.kind && !(c.allowOverlap && o.allowOverlap)) with
+    | some o =>
+      simp only [reduceCtorEq, List.pairwise_cons, false_iff, not_and]
+      intro hall
+      have hm := List.mem_of_find?_eq_some hf
+      have hp := List.find?_some hf
+      exact absurd ((collide_iff_test c o).1 hp) (hall o hm)
+    | none =>
+      simp only [List.pairwise_cons]
+      rw [ih]
+      constructor
+      · intro h
+        refine ⟨?_, h⟩
+        intro o ho hcol
+        have := List.find?_eq_none.1 hf o ho
+        exact this ((collide_iff_test c o).2 hcol)
+      · intro ⟨_, h⟩; exact h
+
+/-- The reported pair really collides, and comes from the list in order. -/
+theorem reported_pair_collides (cs : List Claimed) (a b : Claimed) (h : firstCollision cs = some (a, b)) :
+    Collide a b ∧ a ∈ cs ∧ b ∈ cs := by
+  induction cs with
+  | nil => simp [firstCollision] at h
+  | cons c rest ih =>
+    unfold firstCollision at h
+    cases hf : rest.find? (fun o => o.address == c.address && o.kind == c.kind && !(c.allowOverlap && o.allowOverlap)) with
+    | some o =>
+      rw [hf] at h
+      simp only [Option.some.injEq, Prod.mk.injEq] at h
+      obtain ⟨rfl, rfl⟩ := h
+      have hp := List.find?_some hf
+      have hm := List.mem_of_find?_eq_some hf
+      exact ⟨(collide_iff_test c o).1 hp, List.mem_cons_self .., List.mem_cons_of_mem _ hm⟩
+    | none =>
+      rw [hf] at h
+      obtain ⟨h1, h2, h3⟩ := ih h
+      exact ⟨h1, List.mem_cons_of_mem _ h2, List.mem_cons_of_mem _ h3⟩
+
+/-- **Objects of different kinds never collide.** -/
+theorem kinds_never_collide (a b : Claimed) (h : a.kind ≠ b.kind) : ¬ Collide a b :=
+  fun hc => h hc.2.1
+
+/-- **An object can collide with itself**: two indices of one repeated object with stride 0 are two
+    instances at one address. -/
+example : firstCollision
+    [⟨"R", some 0, 5, false, .register⟩, ⟨"R", some 1, 5, false, .register⟩] ≠ none := by decide
+
+/-- **Rejected iff some two instances collide; the error names both objects and the shared
+    address.** -/
+theorem collision_reject_iff {α : Type} (claimed : List Claimed) (x : α) :
+    (reportCollision claimed x = .ok x ↔ claimed.Pairwise (fun a b => ¬ Collide a b)) ∧
+    (∀ s, reportCollision claimed x = .error s →
+      ∃ a b : Claimed, a ∈ claimed ∧ b ∈ claimed ∧ Collide a b ∧
+        s = .error { stage := "lir", kind := "address_collision",
+                     names := [displayName a, displayName b], numbers := [a.address] }) := by
+  unfold reportCollision
+  cases hf : firstCollision claimed with
+  | none =>
+    simp only [true_iff]
+    exact ⟨(no_collision_iff claimed).1 hf, fun s h => by cases h⟩
+  | some p =>
+    obtain ⟨a, b⟩ := p
+    simp only [reduceCtorEq, false_iff]
+    refine ⟨?_, ?_⟩
+    · intro hp
+      have := (no_collision_iff claimed).2 hp
+      rw [hf] at this; cases this
+    · intro s h
+      obtain ⟨h1, h2, h3⟩ := reported_pair_collides claimed a b hf
+      exact ⟨a, b, h2, h3, h1, (Except.error.inj h).symm⟩
+
 end DDV.Props.C12
